@@ -615,8 +615,15 @@ func c05OracleScripted(rows []c05Row, ops []string, main c05SynRun, kind int) (f
 
 // ---------------------------------------------------------------- real layers
 
+// the first 8 are the stack of the property (every subset is exercised); the rest is an extension
+// group (ICMPv6 + NDP messages, ICMPv4, ARP) used mostly all-or-nothing
 var c05RealTypes = []gopacket.LayerType{layers.LayerTypeEthernet, layers.LayerTypeDot1Q, layers.LayerTypeIPv4,
-	layers.LayerTypeIPv6, layers.LayerTypeTCP, layers.LayerTypeUDP, gopacket.LayerTypePayload, layers.LayerTypeDNS}
+	layers.LayerTypeIPv6, layers.LayerTypeTCP, layers.LayerTypeUDP, gopacket.LayerTypePayload, layers.LayerTypeDNS,
+	layers.LayerTypeICMPv6, layers.LayerTypeICMPv6Echo, layers.LayerTypeICMPv6RouterSolicitation,
+	layers.LayerTypeICMPv6RouterAdvertisement, layers.LayerTypeICMPv6NeighborSolicitation,
+	layers.LayerTypeICMPv6NeighborAdvertisement, layers.LayerTypeICMPv6Redirect, layers.LayerTypeICMPv4, layers.LayerTypeARP}
+
+const c05Extras = ((1 << 17) - 1) &^ 255
 
 func c05NewReal(i int) gopacket.DecodingLayer {
 	switch i {
@@ -636,6 +643,24 @@ func c05NewReal(i int) gopacket.DecodingLayer {
 		return &gopacket.Payload{}
 	case 7:
 		return &layers.DNS{}
+	case 8:
+		return &layers.ICMPv6{}
+	case 9:
+		return &layers.ICMPv6Echo{}
+	case 10:
+		return &layers.ICMPv6RouterSolicitation{}
+	case 11:
+		return &layers.ICMPv6RouterAdvertisement{}
+	case 12:
+		return &layers.ICMPv6NeighborSolicitation{}
+	case 13:
+		return &layers.ICMPv6NeighborAdvertisement{}
+	case 14:
+		return &layers.ICMPv6Redirect{}
+	case 15:
+		return &layers.ICMPv4{}
+	case 16:
+		return &layers.ARP{}
 	}
 	return nil
 }
@@ -1232,6 +1257,7 @@ type c05Stack struct {
 	dport    int
 	payload  []byte
 	fragment bool
+	trailer  []byte // bytes after the IP datagram (Ethernet padding)
 }
 
 // built by hand, not by the library
@@ -1294,7 +1320,29 @@ func c05Build(s c05Stack) []byte {
 		eth = append(eth, 0x81, 0x00, 0x00, byte(10+i))
 	}
 	eth = append(eth, c05be16(etype)...)
-	return append(eth, l3...)
+	return append(append(eth, l3...), s.trailer...)
+}
+
+// an ICMPv6 message with n NDP options (built by hand)
+func c05NDP(rng *rand.Rand, typ int, nopts int) []byte {
+	b := []byte{byte(typ), 0, 0xab, 0xcd}
+	body := map[int]int{128: 4, 129: 4, 133: 4, 134: 12, 135: 20, 136: 20, 137: 36}[typ]
+	for i := 0; i < body; i++ {
+		b = append(b, byte(rng.Intn(256)))
+	}
+	if typ == 128 || typ == 129 {
+		return append(b, 1, 2, 3, 4, 5)
+	}
+	for i := 0; i < nopts; i++ {
+		units := 1 + rng.Intn(2)
+		o := make([]byte, units*8)
+		o[0], o[1] = byte(1+rng.Intn(5)), byte(units)
+		for j := 2; j < len(o); j++ {
+			o[j] = byte(rng.Intn(256))
+		}
+		b = append(b, o...)
+	}
+	return b
 }
 
 var c05DNSQuery = []byte{0x12, 0x34, 0x01, 0x00, 0x00, 0x01, 0x00, 0x00, 0x00, 0x00, 0x00, 0x00,
@@ -1340,6 +1388,15 @@ func c05RandStack(rng *rand.Rand) c05Stack {
 		case 4: // MP_CAPABLE syn
 			s.tcpOpts = []byte{30, 12, 0x00, 0x81, 1, 2, 3, 4, 5, 6, 7, 8}
 		}
+	}
+	if rng.Intn(6) == 0 {
+		s.trailer = make([]byte, 1+rng.Intn(12))
+		rng.Read(s.trailer)
+	}
+	if s.v6 && rng.Intn(3) == 0 {
+		s.proto = 58
+		s.payload = c05NDP(rng, []int{128, 133, 134, 135, 136, 137}[rng.Intn(6)], rng.Intn(4))
+		return s
 	}
 	switch rng.Intn(5) {
 	case 0:
@@ -1393,19 +1450,28 @@ func c05GenReal(rng *rand.Rand, tier string) []Case {
 	var out []Case
 	lits := c05Literals()
 	eth := layers.LayerTypeEthernet
-	full := 255
+	full := (1 << uint(len(c05RealTypes))) - 1
 	thorough := tier == "thorough"
+	ext := func(m int) int { // extension group: all, none, or a random part
+		switch rng.Intn(4) {
+		case 0:
+			return m
+		case 1:
+			return m | rng.Intn(1<<uint(len(c05RealTypes)))&c05Extras
+		}
+		return m | c05Extras
+	}
 	masksFor := func(n int) []int {
 		if thorough || n >= 256 {
 			m := make([]int, 256)
 			for i := range m {
-				m[i] = i
+				m[i] = ext(i)
 			}
 			return m
 		}
-		m := []int{full, full &^ 64, 0x55 | 1}
+		m := []int{full, full &^ 64, 255, 0x55 | 1}
 		for len(m) < n {
-			m = append(m, rng.Intn(256))
+			m = append(m, ext(rng.Intn(256)))
 		}
 		return m
 	}
@@ -1455,7 +1521,7 @@ func c05GenReal(rng *rand.Rand, tier string) []Case {
 		for n := 0; n <= len(b); n++ {
 			m := full
 			if n%3 == 1 {
-				m = rng.Intn(256) | 1
+				m = ext(rng.Intn(256) | 1)
 			}
 			out = append(out, c05RealCase(m, eth, false, b[:n]))
 		}
@@ -1474,7 +1540,7 @@ func c05GenReal(rng *rand.Rand, tier string) []Case {
 		}
 		m := full
 		if i%3 == 0 {
-			m = rng.Intn(256)
+			m = ext(rng.Intn(256))
 		}
 		out = append(out, c05RealCase(m, eth, rng.Intn(5) == 0, c05Mutate(rng, b)))
 	}
@@ -1487,7 +1553,7 @@ func c05GenReal(rng *rand.Rand, tier string) []Case {
 		if s.v6 {
 			first = layers.LayerTypeIPv6
 		}
-		out = append(out, c05RealCase(rng.Intn(256), first, rng.Intn(3) == 0, b))
+		out = append(out, c05RealCase(ext(rng.Intn(256)), first, rng.Intn(3) == 0, b))
 	}
 	// 6. sequences of 2-3 packets into the same objects; first packets leave maximal residue
 	nseq := 300
@@ -1495,12 +1561,51 @@ func c05GenReal(rng *rand.Rand, tier string) []Case {
 		nseq = 4000
 	}
 	residue := func() []byte {
+		if rng.Intn(3) == 0 {
+			s := c05RandStack(rng)
+			s.v6, s.ipOpts, s.proto, s.trailer = true, nil, 58, nil
+			s.payload = c05NDP(rng, []int{133, 134, 135, 136, 137}[rng.Intn(5)], 2+rng.Intn(2))
+			return c05Build(s)
+		}
 		s := c05RandStack(rng)
 		s.v6 = false
 		s.ipOpts = []byte{7, 3, 4, 0, 0xaa, 0xbb, 0xcc, 0xdd}
 		s.proto = 6
 		s.tcpOpts = []byte{30, 4, 0x20, 0x00, 2, 4, 5, 0xb4, 0, 0xee, 0xff, 0x11}
 		return c05Build(s)
+	}
+	// IPv6 hop-by-hop header followed by TCP/UDP, with and without bytes after the datagram
+	for i := 0; i < 12; i++ {
+		s := c05RandStack(rng)
+		s.v6 = true
+		s.ipOpts = []byte{0, 0, 1, 4, 0, 0, 0, 0}
+		if i%2 == 0 {
+			s.ipOpts = append(s.ipOpts, 1, 6, 0, 0, 0, 0, 0, 0)
+		}
+		s.proto = []int{6, 17}[i%2]
+		s.payload = []byte{1, 2, 3, 4, 5, 6, 7}[:1+rng.Intn(7)]
+		s.trailer = nil
+		if i%3 != 0 { // longer than the extension header: the two decoders see different bytes
+			s.trailer = make([]byte, len(s.ipOpts)+1+rng.Intn(8))
+			rng.Read(s.trailer)
+		}
+		out = append(out, c05RealCase(full, eth, false, c05Build(s)))
+		out = append(out, c05RealCase(ext(rng.Intn(256)|1|8), eth, false, c05Build(s)))
+	}
+	// NDP pairs: same message type, more options first
+	for i := 0; i < nseq/6; i++ {
+		typ := []int{133, 134, 135, 136, 137}[rng.Intn(5)]
+		mk := func(n int) []byte {
+			s := c05RandStack(rng)
+			s.v6, s.ipOpts, s.proto, s.trailer = true, nil, 58, nil
+			s.payload = c05NDP(rng, typ, n)
+			return c05Build(s)
+		}
+		m := full
+		if i%5 == 0 {
+			m = ext(rng.Intn(256)|1|8) | c05Extras
+		}
+		out = append(out, c05RealCase(m, eth, false, mk(1+rng.Intn(3)), mk(rng.Intn(3))))
 	}
 	for i := 0; i < nseq; i++ {
 		var pk [][]byte
@@ -1519,7 +1624,7 @@ func c05GenReal(rng *rand.Rand, tier string) []Case {
 		}
 		m := full
 		if i%4 == 0 {
-			m = rng.Intn(256) | 1
+			m = ext(rng.Intn(256) | 1)
 		}
 		out = append(out, c05RealCase(m, eth, rng.Intn(6) == 0, pk...))
 	}
